@@ -1,5 +1,6 @@
 import GBS.Model.ReactGraph
 import GBS.Props.C08
+import GBS.Lemmas.GraphVals
 /-!
 # C16 — the reaction graph states the generator's probabilities, normalised at every node
 -/
@@ -57,6 +58,96 @@ theorem C16_normalised_weight_rule (ws : List Rat) (h : ∀ w ∈ ws, 0 ≤ w) (
 list, C02_weight_law). -/
 theorem C16_normalised_list (l : List Rat) (hpos : sumRat l ≠ 0) : sumRat (l.map (· / sumRat l)) = 1 := by
   rw [sumRat_map_div]; field_simp
+
+/-- **C16 (normalised at every node, on the graph model)**: from every descriptor node `g` of a stochastic object that carries no
+transition list, the `prob` values written by `gen_reaction_graph` sum to 1 whenever the compatible repeat-unit weights are
+non-negative and not all zero — and likewise the `term_prob` values over the compatible end groups. -/
+theorem C16_inner_normalised (e : Nat) (o : Stoch) (g : EDesc) (hn : g.d.trans = none)
+    (hw : ∀ x ∈ elemDescs (.stoch o), 0 ≤ x.d.weight) :
+    (sumRat ((((elemDescs (.stoch o)).filter fun x => isCompatible g.d x.d).filter (·.isRepeat)).map (·.d.weight)) ≠ 0 →
+      sumRat (attrVals .prob (innerEdges e (.stoch o) g)) = 1) ∧
+    (sumRat ((((elemDescs (.stoch o)).filter fun x => isCompatible g.d x.d).filter (fun x => !x.isRepeat)).map (·.d.weight)) ≠ 0 →
+      sumRat (attrVals .termProb (innerEdges e (.stoch o) g)) = 1) := by
+  constructor
+  · intro h
+    rw [innerEdges_prob_vals e o g hn]
+    refine C16_normalised_weight_rule _ ?_ h
+    intro w hw'
+    simp only [List.mem_map, List.mem_filter] at hw'
+    obtain ⟨x, ⟨⟨hx, -⟩, -⟩, rfl⟩ := hw'
+    exact hw x hx
+  · intro h
+    rw [innerEdges_term_vals e o g hn]
+    refine C16_normalised_weight_rule _ ?_ h
+    intro w hw'
+    simp only [List.mem_map, List.mem_filter] at hw'
+    obtain ⟨x, ⟨⟨hx, -⟩, -⟩, rfl⟩ := hw'
+    exact hw x hx
+
+/-- and when those weights are all zero there is no such edge at all ("or are absent") -/
+theorem C16_inner_absent (e : Nat) (o : Stoch) (g : EDesc) (hn : g.d.trans = none)
+    (hw : ∀ x ∈ elemDescs (.stoch o), isCompatible g.d x.d = true → x.d.weight ≤ 0) :
+    innerEdges e (.stoch o) g = [] := by
+  unfold innerEdges
+  simp only [hn, isStoch, Bool.not_true, Bool.false_eq_true, if_false, List.map_eq_nil_iff, List.filter_eq_nil_iff]
+  intro x hx
+  simp only [List.mem_filter] at hx
+  have := hw x hx.1 hx.2
+  simp only [decide_eq_true_eq, not_lt]
+  exact this
+
+/-- **C16 (normalised at every node: listed transition weights)**: a descriptor that lists one non-negative weight per descriptor
+of its object (the list is not longer than the descriptor list), and whose weight is the positive sum of that list (C02's weight
+law), has `prob` values summing to 1. -/
+theorem C16_list_normalised (e : Nat) (el : Element) (g : EDesc) (l : List Rat) (hl : g.d.trans = some l)
+    (hlen : l.length ≤ (elemDescs el).length) (hnn : ∀ w ∈ l, 0 ≤ w) (hsum : g.d.weight = sumRat l) (hpos : 0 < sumRat l) :
+    sumRat (attrVals .prob (innerEdges e el g)) = 1 := by
+  unfold innerEdges
+  simp only [hl]
+  have hne : g.d.weight ≠ 0 := by rw [hsum]; exact ne_of_gt hpos
+  simp only [hne, if_false, withIdx]
+  refine Eq.trans (congrArg sumRat (listEdges_vals (elemDescs el) e g g.d.weight l 0 (by omega))) ?_
+  have hall : l.filter (fun w => decide (0 ≤ w / g.d.weight)) = l := by
+    rw [List.filter_eq_self]
+    intro w hw
+    simp only [decide_eq_true_eq]
+    rw [hsum]
+    exact div_nonneg (hnn w hw) (le_of_lt hpos)
+  rw [hall, hsum]
+  exact C16_normalised_list l (ne_of_gt hpos)
+
+/-- **C16 (normalised at every node: transitions into a stochastic object)**: from a descriptor of a plain token or of a
+stochastic object, the `trans_prob` values towards the next stochastic object are `w / Σ w` over the admissible repeat-unit
+descriptors of that object and sum to 1 whenever that total is at least the code's threshold 1e-16 (below it the code divides
+by 1 instead). -/
+theorem C16_trans_normalised (e : Nat) (el : Element) (n : Stoch) (g : EDesc) :
+    ∃ ws : List Rat, attrVals .transProb (transEdges e el (.stoch n) g) =
+        ws.map (· / (if 0 ≤ sumRat ws ∧ sumRat ws < 1 / 10000000000000000 then 1 else sumRat ws)) ∧
+      (¬ (0 ≤ sumRat ws ∧ sumRat ws < 1 / 10000000000000000) → sumRat ws ≠ 0 →
+        sumRat (attrVals .transProb (transEdges e el (.stoch n) g)) = 1) := by
+  cases el with
+  | tok t =>
+    refine ⟨((elemDescs (.stoch n)).filter fun o => isCompatible g.d o.d && isCompatible o.d n.left && o.isRepeat).map (·.d.weight), ?_, ?_⟩
+    · unfold transEdges
+      simp only [attrVals_trans_map, List.map_map]
+      rfl
+    · intro hth hne
+      unfold transEdges
+      simp only [attrVals_trans_map]
+      simp only [hth, if_false]
+      have := C16_normalised_list _ hne
+      simpa [List.map_map, Function.comp_def] using this
+  | stoch s =>
+    refine ⟨((elemDescs (.stoch n)).filter fun o => isCompatible g.d o.d && isCompatible o.d n.left && o.isRepeat && isCompatible g.d s.right && g.isRepeat).map (·.d.weight), ?_, ?_⟩
+    · unfold transEdges
+      simp only [attrVals_trans_map, List.map_map]
+      rfl
+    · intro hth hne
+      unfold transEdges
+      simp only [attrVals_trans_map]
+      simp only [hth, if_false]
+      have := C16_normalised_list _ hne
+      simpa [List.map_map, Function.comp_def] using this
 
 /-- **C16 (equals the generator's law)**: when the compatible weights are not all equal the probability written on the edge,
 `w / Σ w`, is entry for entry the vector `choose_compatible_weight` hands to the generator (C08_choose_proportional); when
